@@ -4,7 +4,7 @@
    exponent range above (no overflow, no NaN: the idealisation under which the theorems are stated). *)
 From Coq Require Import Reals.
 From Flocq Require Import Core.
-From AG Require Import Base.Prelude Base.Res Base.Bytes Recon.Drift.
+From AG Require Import Base.Prelude Base.Res Base.Bytes Recon.Drift Gen.Drift.
 
 Local Open Scope R_scope.
 
@@ -66,3 +66,11 @@ Definition knot_at (s : rslice) (j : nat) : rknot := nth j (fst s) rk0.
 Definition dyR (a : dyadic) : R := F2R (Float radix2 (fst a) (snd a)).
 Definition dknotR (k : dknot) : rknot := (dyR (dk_time k), dyR (dk_radius k), dyR (dk_corr k)).
 Definition dtablesR (d : dtables) : rtables := map (fun s => (map dknotR (fst s), dyR (snd s))) d.
+
+(* ---------- the tables of the current source (Gen/Drift.v, regenerated on every run) ---------- *)
+(* (a `match` written directly on `dy_tables drift_tables` makes the elaborator evaluate the scrutinee) *)
+Definition unopt_tables (o : option dtables) : dtables := match o with Some d => d | None => [] end.
+Definition d_tables : dtables := unopt_tables (dy_tables drift_tables).
+Definition r_tables : rtables := dtablesR d_tables.
+(* everything that is decided by computation on the current tables, evaluated once *)
+Definition current_checks : bool := tables_okb drift_tables && steps_okb d_tables && witness_okb d_tables.
